@@ -5,25 +5,25 @@ ROOT = os.path.dirname(os.path.dirname(os.path.abspath(__file__)))
 MC = "model_checking"; EX = "exploration"
 CHECKS = {
  "C01": (MC, "explicit-state product model checking (reference automaton x emitted automaton, all game states) over bounded-exhaustive program enumeration",
-   "every script body of 4 exhaustively enumerated families up to a node bound, every sequence of statement templates, two-script files with crossing gotos, dead-label programs, poryswitch-wrapped sequences (selected directly, through a last and through a first '_' case), AutoVar-condition shapes, scaled programs (each construct repeated / nested K times for every K up to a bound) and mixed nests (every ordered triple of block kinds around six cores) is compiled with the real compiler; the emitted assembly is read as an automaton and explored in product with a reference automaton over all game states (visited set closes loops); any product state whose next observable differs is a violation; the evidence file's rule string gives the exact bounds of the run",
+   "every script body of 4 exhaustively enumerated families up to a node bound, every sequence of statement templates, two-script files with crossing gotos, dead-label programs, poryswitch-wrapped sequences (selected directly, through a last and through a first '_' case), AutoVar-condition shapes, scaled programs (each construct repeated / nested K times for every K up to a bound) mixed nests (every ordered triple of block kinds around six cores) and huge scripts (a template repeated up to 22000 / 45000 times in one script) is compiled with the real compiler; the emitted assembly is read as an automaton and explored in product with a reference automaton over all game states (visited set closes loops); any product state whose next observable differs is a violation; the evidence file's rule string gives the exact bounds of the run",
    "trusted: abstract machine for the Gen-3 control macros, the reference lowering, the asm reader; bound: node count per family as reported in evidence"),
  "C02": (MC, "lockstep product model checking of every bounded boolean expression tree against the generator's own tree, all operand values",
-   "every And/Or tree up to k leaves with redundant parentheses/negations on any node, every leaf form (operands spelled as names and as expressions with + and %), in 17 condition positions of scripts (four with a single call / goto / return / end as the body) and in later inline scripts of mapscripts statements, shared-operand variants (different constants incl. 1 / 10 / 100, strictness-only), vars compared with TRUE / FALSE, AutoVar leaves, and chains of K leaves for every K up to a bound; each operand read, its strictness, the order of reads and the branch taken are compared on every path of the product",
+   "every And/Or tree up to k leaves with redundant parentheses/negations on any node, every leaf form (operands spelled as names and as expressions with + and %), in 19 condition positions of scripts (four with a single call / goto / return / end as the body, two with nothing but another if as the body before an else) and in later inline scripts of mapscripts statements, shared-operand variants (different constants incl. 1 / 10 / 100, strictness-only), vars compared with TRUE / FALSE, AutoVar leaves, and chains of K leaves for every K up to a bound; each operand read, its strictness, the order of reads and the branch taken are compared on every path of the product",
    "trusted: the generator's tree printer prints the usual precedence; abstract machine; bound: leaves and decorations as reported"),
  "C03": (MC, "explicit-state product model checking of every bounded case list x body assignment x context against the reference switch rule",
-   "every case list up to n entries (default anywhere or absent), every assignment of up to 13 body kinds (incl. a body that is only a break or only an if with an empty block), 10 contexts, each also on one source line with line markers, inside poryswitch cases with var and AutoVar operands, with every break / closing continue written as a poryswitch case, plus the dead-label programs, mixed nests and switches with K cases / nested K deep for every K up to a bound; product exploration over every value of the switched var and all flags",
+   "every case list up to n entries (default anywhere or absent), every assignment of up to 15 body kinds (incl. a body that is only a break, a label, an if with an empty block or an if around one command), 10 contexts, each also on one source line with line markers, inside poryswitch cases with var and AutoVar operands, with every break / closing continue written as a poryswitch case, plus the dead-label programs, mixed nests and switches with K cases / nested K deep for every K up to a bound; product exploration over every value of the switched var and all flags",
    "trusted: reference switch rule (DESIGN.md E4), abstract machine; bound: entries as reported"),
  "C04": (EX, "bounded-exhaustive program enumeration with a static closure analysis of every emitted file plus dynamic run-off exploration",
-   "every output of the C01/C03 enumerations, the dead-label family (label directly and in every block kind after every dead position, also named like a suffix of a sub-label), multi-statement files with two or three statements of every kind, the C06 / C08 file families, the mixed nests, C20's ill-formed programs wherever the compiler accepts one, and one mass file of >= 100,000 scripts is checked for unique labels, resolved references, preserved user labels, no empty arguments and absence of fall-through across block boundaries from any label",
+   "every output of the C01/C03 enumerations, the dead-label family (label directly and in every block kind after every dead position, also named like a suffix of a sub-label), multi-statement files with two or three statements of every kind, the C06 / C08 file families, the mixed nests and huge scripts, C20's ill-formed programs wherever the compiler accepts one, and one mass file of >= 100,000 scripts is checked for unique labels, resolved references, preserved user labels, no empty arguments and absence of fall-through across block boundaries from any label",
    "static run-off clause treats every branch as feasible; generator keeps user names from imitating generated names"),
  "C05": (MC, "explicit-state product model checking asm(optimize) x asm(no-optimize) per enumerated program, plus static clauses on both texts",
-   "for every enumerated program (C01/C03 families, sequences, scaled programs, mixed nests, shared-operand and decorated conditions in the layouts where the body follows its test, AutoVar shapes, data families with several inline scripts) the optimized and unoptimized outputs are explored in product over all game states from every script entry, and both texts are checked for redundant gotos, unreferenced generated labels, identical visible labels and identical non-goto lines; acceptance of label-clash programs must not depend on the optimizer setting",
+   "for every enumerated program (C01/C03 families, sequences, scaled programs, mixed nests, huge scripts, shared-operand and decorated conditions in the layouts where the body follows its test, AutoVar shapes, data families with several inline scripts) the optimized and unoptimized outputs are explored in product over all game states from every script entry, and both texts are checked for redundant gotos, unreferenced generated labels, identical visible labels and identical non-goto lines; acceptance of label-clash programs must not depend on the optimizer setting",
    "generated labels are recognised by the <script>_<n> naming scheme"),
  "C11": (MC, "lockstep product model checking of bounded expression trees with AutoVar leaves and AutoVar switch operands",
    "C02's enumeration with 1-2 leaves replaced by AutoVar calls of 7 config kinds in 18 condition positions, AutoVar switch operands in 7 contexts (nested switches), AutoVar statements inside poryswitch cases, loops with an AutoVar condition whose body has no command or label-reached statements after a break, each also with line markers on with and without a path; the preamble command, every operand read and every body command are observable events compared on every path",
    "expected preamble text follows the statement rendering rule that C10 checks separately"),
  "C06": (EX, "bounded-exhaustive enumeration of files with inline arguments against a generator-side naming/sharing model",
-   "every file with up to N inline text / moves() arguments over 3 owners (incl. a table-first mapscripts layout), 25 datum kinds and 13 contexts, user statements imitating generated names or coming near them, explicit statements with the very contents of the inline arguments, constants named like contents, plus long files with K different arguments for every K up to a bound, mass files (every ending of a long list's last step; 200,000 different texts) and prepared pairs of contents with equal 64-bit digests; argument labels, label contents, sharing, per-owner numbering and clash errors are compared with the generator's expectation",
+   "every file with up to N inline text / moves() arguments over 3 owners (incl. a table-first mapscripts layout), 25 datum kinds and 13 contexts, user statements imitating generated names or coming near them, explicit statements with the very contents of the inline arguments, constants named like contents, plus long files with K different arguments for every K up to a bound, mass files (every ending of a long list's last step; 200,000 different texts) and prepared pairs of contents with equal 64-bit digests, and three-operand conditions whose operands carry inline data under every operator pair and grouping; argument labels, label contents, sharing, per-owner numbering and clash errors are compared with the generator's expectation",
    "naming rule <owner>_Text_<n> / <owner>_Movement_<n> in order of first appearance is the reference model"),
  "C07": (EX, "bounded-exhaustive enumeration of texts x fonts x every parameter value against an independent token-stream oracle",
    "every atom sequence up to length L (words, multi-byte, control codes, spacing, explicit breaks) x 2 synthetic fonts x every maxLineLength x numLines x cursorOverlap through the exported FormatText, words around one representative of every Unicode category and around the literals of the compiler's own source, words made of backslashes, long texts of K atoms, plus a cross-product of format() spellings compiled end to end under 5 font config files",
@@ -35,34 +35,34 @@ CHECKS = {
    "every content up to length L over 13 characters split into 1-3 parts in 4 layouts (incl. a file with Windows line ends), 5 string types, 17 origins (text statement, inline, format(), poryswitch cases, AutoVar conditions, after colliding spellings), constants named like the content, a dictionary sweep and texts of K parts for every K up to a bound; directives, per-line payloads and the single terminator are compared with the generator's expectation",
    "format() origins use the exported FormatText for the line split and, independently of it, demand that every directive but the last ends in a line-break escape and that the words are the words of the content"),
  "C10": (EX, "bounded-exhaustive enumeration of argument token sequences against the generator's rendering",
-   "every in-domain argument token sequence up to length L over a 26-token alphabet, 11 command names, 13 contexts, compile switches named like the names and arguments, prepared pairs of texts with equal 64-bit digests, a dictionary sweep of names and arguments, commands with K arguments and stretches of K commands for every K up to a bound; the whole emitted file is compared byte for byte",
+   "every in-domain argument token sequence up to length L over a 26-token alphabet, 11 command names, 14 contexts, compile switches named like the names and arguments, prepared pairs of texts with equal 64-bit digests, a dictionary sweep of names and arguments, commands with K arguments and stretches of K commands for every K up to a bound; the whole emitted file is compared byte for byte",
    "domain: no empty arguments, inline data only as whole arguments"),
  "C12": (EX, "bounded-exhaustive metamorphic enumeration: poryswitch program vs. the program with the selected case written out",
    "every poryswitch with 1-3 case labels in every order, colon/brace forms, every content assignment incl. nested poryswitches and continue, in 9 positions x 7 switch values (incl. empty and padded ones), K cases and K elements before a list poryswitch for every K up to a bound, files of N statements that each hold a poryswitch, a dictionary sweep of labels / values / keys, and every program of the control-flow families moved into selected cases; outputs compared byte for byte with generator-side selection",
    "selection rule (matching label, else '_') is the generator's"),
  "C13": (EX, "metamorphic enumeration over definition sets x use sites with line markers on",
-   "17 definition sets x every single use site, every pair and triple (thorough: quadruple) and all sites at once over 32 documented positions + 9 non-positions + use before (and again after) the definition + redefinition, compile switches named like the constants, a dictionary sweep of names and values, constant chains and trees for every size up to a bound, and every program of the control-flow families with operands written as constants; outputs compared byte for byte incl. line markers",
+   "17 definition sets x every single use site, every pair and triple (thorough: quadruple) and all sites at once over 34 documented positions + 9 non-positions + use before (and again after) the definition + redefinition, compile switches named like the constants, a dictionary sweep of names and values, constant chains and trees for every size up to a bound, and every program of the control-flow families with operands written as constants; outputs compared byte for byte incl. line markers",
    "values with parentheses / non-identifiers are only used where they can be written out literally"),
  "C14": (EX, "bounded-exhaustive enumeration of movement and mart lists against the generator's expansion",
    "every movement list up to L elements over 43 element kinds (steps x multipliers incl. boundary and invalid ones, poryswitch segments) in statement and moves() form, every mart list up to M items, every multiplier 1..10005, lists of K elements, a dictionary sweep of step and item names, lists with several 9999-fold elements, files that hold statements named like the steps and items, two moves() in one command, and mass files (every moves() list of 6 steps over 8 names; every ending of a 41-step list's last step)",
    "expected expansion is computed by the generator"),
  "C15": (EX, "exhaustive finite product of statement kinds x scope modifiers x generated label kinds",
-   "3^5 modifier assignments x label modifier x 14 statement orders x optimize x poryswitch alternatives x 3 name sets, names that differ only in letter case, each file also with line markers and a path containing colons; every label definition of the output is classified by the naming scheme and checked against the documented scope; a second script named like a sub-label of the first; plus a dictionary sweep of names and every program of the control-flow families under every script modifier",
+   "3^5 modifier assignments x label modifier x 14 statement orders x optimize x poryswitch alternatives x 3 name sets, names that differ only in letter case, each file also with line markers and a path containing colons, and on one source line with line markers; every label definition of the output is classified by the naming scheme and checked against the documented scope; a second script named like a sub-label of the first; plus a dictionary sweep of names and every program of the control-flow families under every script modifier",
    "naming scheme identifies generated labels"),
  "C16": (EX, "bounded-exhaustive layout enumeration over a construct corpus with a position-map oracle",
    "11 corpus programs covering every marker-emitting construct x every layout with up to k inserted line breaks / blank lines / comments (shaped like preprocessor line markers) x 4 alternating paths, baselines with Windows line ends; transparency, path, and marker line within the construct's source extent; transparency and marker range also over the control-flow and data program families and for programs after K blank lines",
    "the extent reading of 'line on which the construct was written' is stated in DESIGN.md C16"),
  "C17": (MC, "deviation-bounded schedule exploration over instrumented map iterations + exhaustive bounded history enumeration + context enumeration",
-   "every range-over-map of the repository is routed through a scheduler by an overlay generated at check time; all schedules with <= d deviating choice points, every history of <= k compilations (options, fonts and paths changing) vs. fresh-process baselines, every statement of an 18-statement family among <= m neighbours (incl. poryswitch-selected data, dictionary texts and fonts with and without numLines), every scaled, mixed-nest and family program alone vs. next to neighbour files, files with N statements of every data kind and N scripts of every statement template vs. the statements alone",
+   "every range-over-map of the repository is routed through a scheduler by an overlay generated at check time; all schedules with <= d deviating choice points, every history of <= k compilations (options, fonts and paths changing; one input is not valid UTF-8 and ends in a recovered lexer panic) vs. fresh-process baselines, every statement of an 18-statement family among <= m neighbours (incl. poryswitch-selected data, dictionary texts and fonts with and without numLines), every scaled, mixed-nest and family program alone vs. next to neighbour files, files with N statements of every data kind and N scripts of every statement template vs. the statements alone",
    "assumes map iteration order and process history are the compiler's only nondeterminism (no goroutines / clocks / randomness in the code)"),
  "C18": (EX, "bounded-exhaustive token-sequence, deviation and character-string enumeration in watchdog-supervised worker subprocesses",
-   "every token sequence up to L after 29 context prefixes, every single deviation of 12 seed programs (thorough: pairs), every sequence of constant definitions, every integer up to a bound and around 2^31..2^64 at every numeric position, scaled programs and mixed nests, text literals of every length up to 2100 bytes, long multi-byte tokens where another token is expected, poryswitch cases and block statements nested alternately up to 48 deep, every character string up to N over 24 characters, each under a covering set of configurations (incl. a dictionary-keyed command config) in normal and lint mode; panics, hangs, worker deaths, unlocated errors and lint/normal disagreement are violations",
+   "every token sequence up to L after 29 context prefixes, every single deviation of 12 seed programs (thorough: pairs), every sequence of constant definitions, every integer up to a bound and around 2^31..2^64 at every numeric position, scaled programs and mixed nests, text literals of every length up to 2100 bytes, long multi-byte tokens where another token is expected, poryswitch cases and block statements nested alternately up to 48 deep, format() of every short string over braces, every character string up to N over 24 characters, each under a covering set of configurations (incl. a dictionary-keyed command config) in normal and lint mode; panics, hangs, worker deaths, unlocated errors and lint/normal disagreement are violations",
    "covering set of configurations rather than the full matrix; hang = no progress for 10 s confirmed alone"),
  "C19": (EX, "bounded-exhaustive character-string and lexeme-sequence enumeration with generator-free position and gap-variation oracles",
-   "every string up to N characters over 20 characters and every sequence up to M lexemes of a 67-lexeme alphabet in 5 layouts, one representative of every Unicode category and the runes whose low byte is an ASCII character (incl. the fullwidth forms) in 9 lexical contexts, tokens at far lines / columns: every token's reported position must locate its lexeme, only white space and comments may lie between tokens, replacing any gap between tokens by any of 13 separators must keep the token sequence, and lexeme sequences whose neighbours cannot run together must lex the same without blanks; corpus, control-flow and data family programs must compile to the same output under 5 layout rewrites",
+   "every string up to N characters over 20 characters and every sequence up to M lexemes of a 67-lexeme alphabet in 5 layouts, one representative of every Unicode category and the runes whose low byte is an ASCII character (incl. the fullwidth forms) in 9 lexical contexts, tokens at far lines / columns: every token's reported position must locate its lexeme, only white space and comments may lie between tokens, replacing any gap between tokens by any of 16 separators must keep the token sequence, and lexeme sequences whose neighbours cannot run together must lex the same without blanks; corpus, control-flow and data family programs must compile to the same output under 5 layout rewrites",
    "lexeme of STRING / RAWSTRING found by a small independent scanner"),
  "C20": (EX, "exhaustive enumeration of nesting chains x injections with a line oracle",
-   "every nesting chain up to depth d (and deep chains up to a bound) under 3 roots x 56 injections, enumerated constant redefinitions (self-named and cyclic ones included), text / movement names equal to generated labels of 9 owners, plus name-clash programs derived from the compiler's own output for every placement of the label; each ill-formed program must be rejected with the error on the offending line",
+   "every nesting chain up to depth d (and deep chains up to a bound) under 3 roots x 59 injections, enumerated constant redefinitions (self-named and cyclic ones included), text / movement names equal to generated labels of 9 owners, plus name-clash programs derived from the compiler's own output for every placement of the label; each ill-formed program must be rejected with the error on the offending line",
    "one statement per line identifies the construct"),
 }
 ENGINE_PROPS = sorted(CHECKS)
